@@ -302,6 +302,8 @@ def loop_synthetic(ctx, drv, pp):
 
 def loop_disagreement(ctx, drv, stream, case, impl, m):
     replay = {"kind": stream, **case, "impl": impl, "model": m.get("final")}
+    if "tokens" in case:
+        replay["spec_per_token"] = drv.call("c13.spec.loop", tokens=case["tokens"])["rows"]
     if "ok" in impl:
         sp = drv.call("c13.spec.text", texts=[impl["ok"]])["r"][0]
         replay["spec_on_impl"] = sp
@@ -1082,6 +1084,9 @@ def run(ctx):
         "sys_path": Cleanup.suppress_sys_path_injection, "normalize": Cleanup.normalize_paroxython_comments,
         "blank_lines": Cleanup.suppress_blank_lines, "useless_pass": Cleanup.suppress_useless_pass_statements,
         "strip": lambda s: s.strip(), "tabs": lambda s: s.replace("\t", "    "),
+        "preprocess": lambda s: Cleanup.suppress_sys_path_injection(
+            Cleanup.suppress_main_guard(Cleanup.suppress_first_comments(s))).replace("\t", "    "),
+        "finish": lambda s: Cleanup.suppress_useless_pass_statements(Cleanup.suppress_blank_lines(s.strip())),
     })
     quick = ctx.tier == "quick"
     drv = core.Driver()
@@ -1151,7 +1156,8 @@ def run(ctx):
         "theorems about the token loop quantify over ALL token lists (kinds, strings, positions), not only those CPython produces",
         "the sentences needing CPython's grammar are exercised on generated/corpus programs only",
     ]
-    if not ctx.violations and (not ctx.proofs_ok or ctx.broken):
+    unexplained = [v for v in ctx.violations if v.get("signature") is None]
+    if not unexplained and (not ctx.proofs_ok or ctx.broken):
         ctx.violations.append({
             "no_input": True,
             "what": "a proof or the correspondence no longer checks",
@@ -1223,6 +1229,8 @@ def replay(ctx, path):
             print("impl  :", obj.get("impl"))
             print("model :", repr(m["final"]))
             print("spec  :", drv.call("c13.spec.text", texts=[m["final"]])["r"][0])
+            print("spec per token [isComment, isHint, isString, atStmtStart, docstringLike]:",
+                  drv.call("c13.spec.loop", tokens=obj["tokens"])["rows"])
             return 0
         print(json.dumps(obj, indent=1)[:2000])
         return 0
